@@ -29,7 +29,8 @@ LEVEL_TEXT = ("Machine-checked proof (Coq, closed under the global context; libr
               "host key stored; any single-field corruption of the reply (host key blob, public value, signature) is "
               "refused; an accepted reply under the honest key is authentic; session_id is the first H after any "
               "sequence of exchanges; _check_banner keeps the peer's identification line unchanged; an accepted signature "
-              "blob passed every pre-verification test present in _verify_key; tied to the real engines and Transport by a differential run of the model "
+              "blob passed every pre-verification test present in _verify_key; Transport.connect(hostkey=pinned) goes on to "
+              "authenticate iff the verified server key has the pinned type name and blob; tied to the real engines and Transport by a differential run of the model "
               "(vm_compute) on recorded transcripts plus an implementation-level oracle with tamper runs.")
 LEVEL_NOTE = ("PARTIAL: symbolic cryptography.  The hash is assumed injective, signatures are a free algebra "
               "(C06_tamper_abort) or unforgeable (C06_accept_authentic), ECDH / X25519 commutation "
@@ -793,7 +794,7 @@ def check_loop_honest(ctx, name, cls, fam, alg, rekeys, o, case, model_cases, la
     c, s = o["client"], o["server"]
     check_versions(ctx, o, case)
     for me, peer in ((c, s), (s, c)):
-        if me["remote_version"] is not None and len(BANNER_CASES) < (400 if ctx.thorough else 40):
+        if me["remote_version"] is not None and len(BANNER_CASES) < (300 if ctx.thorough else 24):
             BANNER_CASES.append((coq(list(peer["wire_line"])), list(asb(me["remote_version"])), case))
     for rec, r in ((c["kex"], c), (s["kex"], s)):
         for k in rec:
@@ -812,7 +813,7 @@ def check_loop_honest(ctx, name, cls, fam, alg, rekeys, o, case, model_cases, la
         crec = dict(crec, hostkey=None)
         check_honest(ctx, "handshake (exchange %d)" % (i + 1), name, cls, fam, alg, crec, srec, c["remote_key"],
                      dict(case, exchange=i + 1),
-                     model_cases if len(model_cases) < (400 if ctx.thorough else 44) and (ctx.thorough or i == 0) else [])
+                     model_cases if len(model_cases) < (400 if ctx.thorough else 36) and (ctx.thorough or i == 0) else [])
     first = c["kex"][0]["H"]
     for side, r in (("client", c), ("server", s)):
         sids = [k["sid"] for k in r["kex"]] + [r["sid"]]
@@ -821,7 +822,7 @@ def check_loop_honest(ctx, name, cls, fam, alg, rekeys, o, case, model_cases, la
                 side, rekeys), case=case, expected=first, observed=[x for x in sids if x != first][0])
         if r["K"] is not None or r["H"] != r["kex"][-1]["H"]:
             ctx.fail("post-newkeys-state", "%s: K not wiped or H is not the last exchange hash after NEWKEYS" % side, case=case)
-        if not ctx.thorough and len(latch_cases) >= 30:
+        if not ctx.thorough and len(latch_cases) >= 20:
             continue
         latch_cases.append((coq([(k["K"], list(k["H"])) for k in r["kex"]]),
                             [1] + list(r["sid"] or b"") + [-1, 1] + list(r["H"] or b"") + [-1] + ([0] if r["K"] is None else [2, r["K"]]),
@@ -926,10 +927,130 @@ def run_loopback(ctx, keys, model_cases, latch_cases):
     return n
 
 
+# ----------------------------------------------------------------------------- (d) Transport.connect(hostkey=...)
+
+PIN_VARIANTS = ["same", "same-reloaded", "other-same-type", "other-type"]
+
+
+def connect_once(name, alg, keys, variant, use_pkey, rng):
+    """Transport.connect(hostkey=<pinned>, username, password | pkey) against a server holding keys[alg][0]."""
+    import paramiko
+    from _loop import LoopSocket
+    from paramiko.kex_group14 import KexGroup14
+    key, other = keys[alg]
+    if variant == "same":
+        pinned = key
+    elif variant == "same-reloaded":
+        pinned = type(key)(data=key.asbytes())
+    elif variant == "other-same-type":
+        pinned = other
+    else:
+        alt = [k for a, (k, _) in sorted(keys.items()) if k.get_name() != key.get_name()]
+        pinned = alt[rng.randrange(len(alt))]
+
+    class Srv(paramiko.ServerInterface):
+        def __init__(self):
+            self.auth = []
+
+        def get_allowed_auths(self, username):
+            return "password,publickey"
+
+        def check_auth_password(self, username, password):
+            self.auth.append(("password", username, password))
+            return paramiko.AUTH_SUCCESSFUL
+
+        def check_auth_publickey(self, username, k):
+            self.auth.append(("publickey", username))
+            return paramiko.AUTH_SUCCESSFUL
+
+    a, b = LoopSocket(), LoopSocket()
+    a.link(b)
+    tc, ts = paramiko.Transport(a), paramiko.Transport(b)
+    srv = Srv()
+    out = {"exc": None}
+    try:
+        for t in (tc, ts):
+            t.get_security_options().kex = [name]
+        ts.add_server_key(key)
+        if "group-exchange" in name:
+            ts._modulus_pack = Pack(KexGroup14.G, KexGroup14.P)
+            ts.get_security_options().kex = [name]
+        ts.start_server(event=threading.Event(), server=srv)
+        try:
+            if use_pkey:
+                tc.connect(hostkey=pinned, username="verif", pkey=keys[sorted(keys)[0]][1])
+            else:
+                tc.connect(hostkey=pinned, username="verif", password="s3cret-" + variant)
+        except Exception as e:   # noqa: the client's reaction is the observable
+            out["exc"] = e
+            time.sleep(0.15)     # anything the client sent before raising has reached the server by now
+        out["auth_seen"] = list(srv.auth)
+        out["authenticated"] = tc.is_authenticated()
+        out["shown"] = None if tc.host_key is None else (tc.host_key.get_name(), tc.host_key.asbytes())
+        out["pinned"] = (pinned.get_name(), pinned.asbytes())
+        out["server"] = (key.get_name(), key.asbytes())
+        return out
+    finally:
+        tc.close()
+        ts.close()
+        a.close()
+        b.close()
+
+
+def check_connect(ctx, name, alg, variant, use_pkey, o, case, pin_cases):
+    same = o["pinned"] == o["server"]
+    accepted = o["exc"] is None
+    if same:
+        if not accepted or not o["authenticated"]:
+            ctx.fail("pinned-key-match-rejected", "Transport.connect(hostkey=<the server's key>) failed: %r" % (o["exc"],),
+                     case=case, expected="connected and authenticated", observed=repr(o["exc"]))
+    else:
+        if accepted or o["auth_seen"] or o["authenticated"]:
+            ctx.fail("pinned-key-mismatch-accepted:" + variant,
+                     "Transport.connect(hostkey=<pinned>) towards a server holding a DIFFERENT key (%s) %s" % (
+                         variant, "completed and authenticated" if accepted else
+                         "raised but had already sent credentials: %r" % (o["auth_seen"],)),
+                     case=case, expected="SSHException before any authentication request",
+                     observed={"exception": repr(o["exc"]), "auth_requests_seen_by_server": len(o["auth_seen"])})
+    if o["shown"] is not None:
+        # the exchange completed: connect's comparison decided
+        pin_cases.append(("(%s, %s, %s, %s)" % (coq(o["shown"][0]), coq(o["pinned"][0]), coq(list(o["shown"][1])),
+                                                coq(list(o["pinned"][1]))), [0] if accepted else [1], case))
+        if o["shown"] != o["server"]:
+            ctx.fail("client-host-key:" + name, "connect: the client holds a host key the server does not own", case=case)
+
+
+def run_connect(ctx, keys, pin_cases):
+    from paramiko.transport import Transport
+    rng = ctx.rng
+    eng = {n: (c, f) for n, c, f in engines()}
+    light = [n for n in Transport._preferred_kex if n in eng and "group16" not in n]
+    types = {}
+    for alg in sorted(keys):
+        types.setdefault(keys[alg][0].get_name(), alg)
+    algs = sorted(types.values()) if not ctx.thorough else sorted(keys)
+    n = 0
+    for i, alg in enumerate(algs):
+        for j, variant in enumerate(PIN_VARIANTS):
+            for rep in range(2 if ctx.thorough else 1):
+                nm = light[(i * len(PIN_VARIANTS) + j + 3 * rep) % len(light)]
+                use_pkey = (i + j + rep) % 3 == 0
+                case = {"mode": "connect", "kex": nm, "hostkey": alg, "variant": variant, "pkey": use_pkey}
+                st, o = with_watchdog(lambda: connect_once(nm, alg, keys, variant, use_pkey, rng), 60)
+                if st != "ok":
+                    ctx.notes.append("connect run %r did not finish: %s %r" % (case, st, o))
+                    continue
+                ctx.count(("connect", nm, alg, variant, use_pkey), kind="connect:" + variant)
+                n += 1
+                check_connect(ctx, nm, alg, variant, use_pkey, o, case, pin_cases)
+    return n
+
+
 # ----------------------------------------------------------------------------- run / replay
 
-def compare_models(ctx, model_cases, dh_cases, latch_cases):
+def compare_models(ctx, model_cases, dh_cases, latch_cases, pin_cases=()):
     jobs = [("run_banner", "(list Z)", list(BANNER_CASES), 200),
+            ("run_pin", "(list Z * list Z * list Z * list Z)", list(pin_cases), 200),
             ("run_hash_input", "(Z * Z * transcript)", model_cases, 40),
             ("run_dh", "(Z * Z * Z * Z)", dh_cases, 4),
             ("run_latch", "(list (Z * list Z))", latch_cases, 60)]
@@ -965,7 +1086,10 @@ def run(ctx):
                 "another key of the same / another type, bit flipped in the key blob, f / Q_S replaced by another valid "
                 "value, signature bit flipped / made by another key over the same H / made by the right key over other "
                 "data / emptied; junk or zero padding prepended / appended to the inner signature string, appended to the "
-                "signature blob or the key blob, a key field zero-padded; every fault x every host key algorithm) -- on the initial exchange or on the 2nd / 3rd exchange (re-key) of the same transports.  "
+                "signature blob or the key blob, a key field zero-padded; every fault x every host key algorithm) -- on the initial exchange or on the 2nd / 3rd exchange (re-key) of the same transports; (d) "
+                "Transport.connect(hostkey=pinned, password | pkey) towards a server holding the pinned key / the same key "
+                "re-loaded / another key of the same type / a key of another type, per host key type: a differing key must "
+                "raise before the server sees any authentication request.  "
                 "Every key a transport installs (_compute_key result) is compared with an independent RFC 4253 7.2 "
                 "derivation whose session id is the FIRST exchange hash.  A case is non-trivial when distinct and, for tamper runs, when the reply really changed")
     ctx.trusted += ["gen/c06.py translator (fail-closed): layout / reply_sent / reply_read / setkh_prog / verify_over in Gen/C06_gen.v",
@@ -988,8 +1112,12 @@ def run(ctx):
         t0 = time.time()
         n = run_loopback(ctx, keys, model_cases, latch_cases)
         ctx.log("loopback: %d handshakes in %.1fs" % (n, time.time() - t0))
-    ctx.traces = len(model_cases) + len(dh_cases) + len(latch_cases) + len(BANNER_CASES)
-    compare_models(ctx, model_cases, dh_cases, latch_cases)
+        t0 = time.time()
+        pin_cases = []
+        n = run_connect(ctx, keys, pin_cases)
+        ctx.log("Transport.connect(hostkey=...): %d connections in %.1fs" % (n, time.time() - t0))
+    ctx.traces = len(model_cases) + len(dh_cases) + len(latch_cases) + len(BANNER_CASES) + len(pin_cases)
+    compare_models(ctx, model_cases, dh_cases, latch_cases, pin_cases)
 
 
 def replay(ctx, rep):
@@ -1004,7 +1132,12 @@ def replay(ctx, rep):
     with hash_recording():
         for attempt in range(3):
             ctx.count(("replay", attempt, str(case)))
-            if case.get("mode") == "direct":
+            if case.get("mode") == "connect":
+                st, o = with_watchdog(lambda: connect_once(case["kex"], alg, keys, case["variant"], bool(case.get("pkey")),
+                                                           ctx.rng), 60)
+                if st == "ok":
+                    check_connect(ctx, case["kex"], alg, case["variant"], bool(case.get("pkey")), o, case, [])
+            elif case.get("mode") == "direct":
                 o = direct_exchange(case["kex"], cls, fam, alg, keys, ctx.rng, fault, bool(case.get("old_style")),
                                     exchanges=int(case.get("exchange") or 1) if fault is not None else 1)
                 if fault is None:
